@@ -128,6 +128,17 @@ def run(ctx):
                     blame.append("spans")
                 if f["paragraphs"] and any("\n" in c for rows in doc for r in rows for c in r):
                     blame.append("paragraphs")
+                # (several candidates: each one is blamed only if the same table encoded with that feature alone is misread as well)
+                if len(blame) > 1:
+                    feature_of = {"number-rows-repeated": "rowRuns", "whitespace-elements": "whitespace", "spans": "spans", "paragraphs": "paragraphs"}
+                    confirmed = []
+                    for b in blame:
+                        ods_enc.write_ods(path, ods_enc.encode_doc({n_: (n_ == feature_of[b]) for n_ in FEATURES}, doc), charset)
+                        alone = impl_rows(path, sheet)
+                        os.remove(path)
+                        if alone != want:
+                            confirmed.append(b)
+                    blame = confirmed or ["other"]
                 for b in (blame or ["other"]):
                     ctx.violation("C15:decode:%s" % b, "sheet %d of %r (%s, %s): read %s, logical table %s" % (sheet, doc, feats, charset, impl, want), case)
             if impl != m:
@@ -182,6 +193,12 @@ def run(ctx):
         # non-positive or non-numeric repeat counts, including texts for which str.isdigit() and int() disagree
         for bad in ("0", "-1", "x", "1.5", "", "-0", "+0", "--2", "+-2", "\u00b2", "\u2460", "\u00bd", "1e2", "0x2", "2.0", " ", "1 2", "\u0661x", "\u0660", "2-"):
             xml_faults["repeat=%s" % bad] = content.replace(b"<table:table-cell ", b'<table:table-cell table:number-columns-repeated="%s" ' % bad.encode(), 1)
+        # counts of blanks (text:s text:c="...") that are no numbers: a data-format error as well
+        ws_content = ods_enc.content_bytes(ods_enc.encode_doc({n_: (n_ == "whitespace") for n_ in FEATURES}, [[["a   b", "c"]]]))
+        if b'text:c="2"' not in ws_content:
+            ctx.machinery_error("the harness encoder no longer writes a blank count of 2 for a run of three blanks")
+        for bad in ("x", "1.5", "", "--2", "\u00bd", "1e2", "0x2", " ", "2-"):
+            xml_faults["blank-count=%s" % bad] = ws_content.replace(b'text:c="2"', ('text:c="%s"' % bad).encode("utf-8"), 1)
         # content.xml declaring an encoding the XML parser does not know, cannot use, or that is no text encoding: either it is
         # read correctly or it is a data-format error
         body = text.split("?>", 1)[1] if text.startswith("<?xml") else text
